@@ -56,6 +56,12 @@ def cohB (db : DB) (a : Addr) (acc : Acct) : Bool :=
 
 def parseAddr (s : String) : Addr := (s.drop 1).toNat?.getD 99
 
+/-- `Bxh.Ledger.CacheDb` as a computation (hypothesis of the eviction / reopen theorems of C13): every cached storage value is the
+value the database holds, up to nil / empty -/
+def cacheDbB (l : L) : Bool :=
+  l.cache.state.all (fun p => p.2.all (fun q => decide (q.2.getD "" = ((KV.get l.db.state (p.1, q.1) : Bytes)).getD "")))
+def cdb (l : L) : String := " ##m cachedb=" ++ (if cacheDbB l then "1" else "0")
+
 def verLine (l : L) : String := s!"ver={l.maxJ} min={l.minJ} root={l.prevRoot}"
 
 def step (s : St) (ws : List String) : St × String :=
@@ -135,15 +141,15 @@ def step (s : St) (ws : List String) : St × String :=
   | ["ver"] => (s, verLine l)
   | ["reopen"] =>
     match reopen l with
-    | some l' => ({ s with l := l', flushed := none }, "ok " ++ verLine l')
+    | some l' => ({ s with l := l', flushed := none }, "ok " ++ verLine l' ++ cdb l)
     | none => (s, "err open other")
   | ["evict", "inner", a] => ({ s with l := { l with cache := { l.cache with inner := KV.erase l.cache.inner (parseAddr a) } } }, "ok")
-  | ["evict", "state", a] => ({ s with l := { l with cache := { l.cache with state := KV.erase l.cache.state (parseAddr a) } } }, "ok")
+  | ["evict", "state", a] => ({ s with l := { l with cache := { l.cache with state := KV.erase l.cache.state (parseAddr a) } } }, "ok" ++ cdb l)
   | ["evict", "code", a] => ({ s with l := { l with cache := { l.cache with code := KV.erase l.cache.code (parseAddr a) } } }, "ok")
   | ["evict", "key", a, k] =>
     let ad := parseAddr a
     match KV.get l.cache.state ad with
-    | some m => ({ s with l := { l with cache := { l.cache with state := KV.set l.cache.state ad (KV.erase m (tok k)) } } }, "ok")
+    | some m => ({ s with l := { l with cache := { l.cache with state := KV.set l.cache.state ad (KV.erase m (tok k)) } } }, "ok" ++ cdb l)
     | none => (s, "ok")
   | _ => (s, "bad-op")
 
